@@ -39,7 +39,7 @@ def shape_obligations(ctx, pid, propdef, shapes_list):
         obls.append(Obl("%s.shape.%s" % (pid, sh.key()), pid, "harness/C01/shape.c", entry="h_shape",
                         defines={"RTOSC_C": raw, "SHAPE_H": '"%s"' % path, propdef: None}, mode="bounded",
                         bound="shape-bounded: tags/lengths fixed per shape, payloads+capacity symbolic",
-                        cbmc=["--unwind", str(sh.need() + 12), "--unwinding-assertions"], timeout=900, mem_gb=16,
+                        cbmc=["--unwind", str(sh.need() + 12), "--unwinding-assertions"], timeout=900, mem_gb=(16 if ctx.tier == "quick" else 13),
                         case=sh.describe()))
     return obls
 
@@ -58,7 +58,7 @@ def av_obligations(ctx, pid, shapes_list):
         obls.append(Obl("%s.avmessage.%s" % (pid, sh.key()), pid, "harness/C01/avmessage.c", entry="h_avmessage",
                         defines=dict(d, SHAPE_H='"%s"' % path), includes=[os.path.join(ctx.repo, "src/cpp")], mode="bounded",
                         bound="shape-bounded: tags/lengths fixed per shape, payloads+capacity symbolic",
-                        cbmc=["--unwind", str(sh.need() + 12), "--unwinding-assertions"], timeout=900, mem_gb=16,
+                        cbmc=["--unwind", str(sh.need() + 12), "--unwinding-assertions"], timeout=900, mem_gb=(16 if ctx.tier == "quick" else 13),
                         case=sh.describe()))
     return obls
 
